@@ -138,34 +138,47 @@ def drv(kinds, keys, order, preserve, remove_idx=None):
     return snap, after, same_objs, got, exp, fresh, out is not lib
 
 
-def drv_reuse(kinds, keys, keys2, order, preserve):
-    """one sorter instance on two libraries (same kinds, other keys): each result equals that of a fresh instance"""
+def drv_reuse(kinds, keys, keys2, order, preserve, kinds2=None):
+    """one sorter instance on two libraries (other keys; kinds2: other kinds, among them a type the first library does
+    not have): each result equals that of a fresh instance"""
+    kinds2 = kinds if kinds2 is None else kinds2
     desc = lambda lib: [(type(b), b.start_line, b.raw, block_key(b)) for b in lib.blocks]
     mw = SortBlocksByTypeAndKeyMiddleware(block_type_order=order, preserve_comments_on_top=preserve)
     r1 = desc(mw.transform(Library(build(kinds, keys))))
-    r2 = desc(mw.transform(Library(build(kinds, keys2))))
+    r2 = desc(mw.transform(Library(build(kinds2, keys2))))
     f1 = desc(SortBlocksByTypeAndKeyMiddleware(block_type_order=order, preserve_comments_on_top=preserve).transform(Library(build(kinds, keys))))
-    f2 = desc(SortBlocksByTypeAndKeyMiddleware(block_type_order=order, preserve_comments_on_top=preserve).transform(Library(build(kinds, keys2))))
+    f2 = desc(SortBlocksByTypeAndKeyMiddleware(block_type_order=order, preserve_comments_on_top=preserve).transform(Library(build(kinds2, keys2))))
     return r1, f1, r2, f2
 
 
 def task_reuse(kinds):
     total = None
-    for oname, preserve in itertools.product(("default", "reversed"), (True, False)):
+    flip = lambda ks: [mk([c.map(lambda ch: "b" if ch == "a" else "a") for c in chars(k)]) if kd in "SE" else "" for k, kd in zip(ks, kinds)]
+    nflip = lambda ks: ["".join("b" if ch == "a" else "a" for ch in k) for k in ks]
+    for oname, preserve in itertools.product(("default", "reversed", "entry-only", "empty"), (True, False)):
         eng = Engine()
         rec = Recorder(eng)
         keys = [eng.sym_str(f"k{i}_", 1, "ab") if kd in "SE" else "" for i, kd in enumerate(kinds)]
-        keys2 = [mk([c.map(lambda ch: "b" if ch == "a" else "a") for c in chars(k)]) if kd in "SE" else "" for k, kd in zip(keys, kinds)]
+        kinds2 = None
+        second = flip
+        nsecond = nflip
+        if oname in ("entry-only", "empty"):
+            # the second library: the first one reversed, behind a block of a type the first library does not have and
+            # the order does not list (whatever an instance remembers about 'other' types from its first call would show)
+            kinds2 = "P" + kinds[::-1]
+            second = lambda ks: [""] + flip(ks)[::-1]
+            nsecond = lambda ks: [""] + nflip(ks)[::-1]
+        keys2 = second(keys)
         E = eng.I.models.eq_simple
-        worlds = eng.run(drv_reuse, [kinds, keys, keys2, ORDERS[oname], preserve])
+        worlds = eng.run(drv_reuse, [kinds, keys, keys2, ORDERS[oname], preserve, kinds2])
 
         def rp(m):
             import logging
             logging.disable(logging.CRITICAL)
             ks = eng.model_value(m, keys)
-            ks2 = ["".join("b" if ch == "a" else "a" for ch in k) for k in ks]
+            ks2 = nsecond(ks)
             try:
-                r1, f1, r2, f2 = drv_reuse(kinds, ks, ks2, ORDERS[oname], preserve)
+                r1, f1, r2, f2 = drv_reuse(kinds, ks, ks2, ORDERS[oname], preserve, kinds2)
             except Exception as ex:  # noqa
                 from pysym.harness import guard_repo_exception
                 guard_repo_exception(ex)
@@ -299,7 +312,7 @@ def main():
     chk.bounds["after remove"] = f"{len(rem)} sequences with two same-kind keyed blocks, first block removed before sorting"
     for s in rem:
         chk.add_task(f"rem0-{s}", task, kinds=s, remove_idx=0)
-    chk.bounds["one instance, two libraries"] = "ESE, SES, EIE, XES, EE with the keys of the second library swapped (a<->b); default and reversed order, both modes"
+    chk.bounds["one instance, two libraries"] = "ESE, SES, EIE, XES, EE with the keys of the second library swapped (a<->b); default and reversed order, both modes; with the orders (Entry,) and () the second library is the first one reversed behind a @preamble (a type the first call has not seen and the order does not list)"
     for s in ("ESE", "SES", "EIE", "XES", "EE"):
         chk.add_task(f"reuse-{s}", task_reuse, kinds=s)
     chk.run()
